@@ -8,7 +8,42 @@ COMMON_TRUSTED = [
     "Go toolchain go1.23.5",
 ]
 
+FACTX = [dict(exe="factx", args=["/repo", "/verif/lean/Avfs/Generated/Wrap.lean"])]
+MODEL_TRUST = ["modelled, not verified: Go maps and slices as association lists / lists, time.Now (modification times are compared only where Chtimes set them), math/rand temp names (taken from the implementation's answer)",
+               "the MemFS model is hand-written from vfs/memfs/*.go and vfs.go; tied by corr memfs* (call results + internal node graph through the verif hook after every call)"]
+
 PROPS = {
+    "C02": dict(
+        props_files=["Avfs/Props/C02.lean"],
+        parts=[dict(name="memfs-files"), dict(name="kernel-files")],
+        trusted=MODEL_TRUST + ["oracle: *os.File through OsFS in a chroot-ed child process on a fresh tmpfs directory"],
+        assumptions=["file sizes far below 2^31", "one process; handles interleaved sequentially"],
+        not_yet_proved=["refinement of whole handle histories to a pread/pwrite reference (per-operation theorems only)", "OrefaFS handles (model not built yet)"],
+    ),
+    "C03": dict(
+        props_files=["Avfs/Props/C03.lean"],
+        parts=[dict(name="memfs-perm")],
+        trusted=MODEL_TRUST,
+        assumptions=["one group per user, no ACLs, no capabilities other than the administrator's override"],
+        not_yet_proved=["per-call equality of the decision with the kernel's (kernel oracle under setfsuid not wired in yet)", "sticky / setgid directory semantics"],
+    ),
+    "C09": dict(
+        props_files=["Avfs/Props/C09.lean"],
+        translators=FACTX,
+        parts=[dict(name="rofs")],
+        trusted=["translator harness/cmd/factx (go/ast, syntactic, fails closed: an unrecognised method body becomes Shape.unknown which no rule accepts)",
+                 "the list of read-only base methods (Avfs.Wrap.readOnlyBase) — each is a query of the base models that returns the store unchanged"],
+        assumptions=["RoFile.name uses reflect only to read the base file's name"],
+        not_yet_proved=[],
+    ),
+    "C12": dict(
+        props_files=["Avfs/Props/C12.lean"],
+        translators=FACTX,
+        parts=[dict(name="failfs")],
+        trusted=["translator harness/cmd/factx (go/ast, syntactic, fails closed)"],
+        assumptions=["composite helpers (Create, WriteFile, ReadFile, ReadDir, Glob, MkdirTemp) are the generic functions of vfs.go run over the wrapper: their behaviour under injected faults is checked by exhaustive single-fault enumeration per history, not proved"],
+        not_yet_proved=["composite_fails as a theorem (enumerated, with three recorded exceptions in the ledger)"],
+    ),
     "C16": dict(
         props_files=["Avfs/Props/C16.lean"],
         parts=[dict(name="copy")],
